@@ -624,6 +624,21 @@ func runC10(c *wk.Ctx) {
 						if pt.t == nil || isNilIface(pt.t) {
 							continue
 						}
+						// a plugin schema that was accepted is fully linked: any reference left without its object
+						// panics on the first operation that reaches it
+						if tt, isType := pt.t.(schema.Type); isType {
+							unlinked := ""
+							if pn, _, _, _ := wk.Guard(func() {
+								for _, rf := range refsOf(tt) {
+									if !rf.ObjectReady() {
+										unlinked = fmt.Sprintf("%s (namespace %q)", rf.ID(), rf.Namespace())
+									}
+								}
+							}); !pn && unlinked != "" {
+								c.Violation("C10:accepted-with-unlinked-reference", fmt.Sprintf("UnserializeSchema accepted a description whose %s contains the reference %s that is not linked to any object", pt.name, unlinked), wit)
+								return
+							}
+						}
 						if !c10Exercise(c, pt.name, pt.t, inputs[:8], wit) {
 							return
 						}
